@@ -97,6 +97,7 @@ class IOComponent:
     scheduler: Any = None
     dm_setup: Callable | None = None
     in_phase: Callable | None = None           # (cfg, rng) -> phase dict for gen_in (bias)
+    shadow: Callable | None = None             # cfg -> exclusive methods that get a second (shadow) caller
 
 
 # ---------------------------------------------------------------------------------------
@@ -105,7 +106,7 @@ class IOComponent:
 class IOSim:
     """Like drive.CompSim, plus plain inputs, list-valued pub/inputs, and re-runs from reset."""
 
-    def __init__(self, build: Callable, cfg, scheduler=None, dm_setup: Callable | None = None):
+    def __init__(self, build: Callable, cfg, scheduler=None, dm_setup: Callable | None = None, shadows=()):
         from amaranth.sim import Simulator
         from transactron.core import TransactionManager
         from transactron.core.context import TransactronContextElaboratable
@@ -120,7 +121,7 @@ class IOSim:
             self.pub = built[2] if len(built) > 2 and built[2] else {}
             extra = built[3] if len(built) > 3 else None
             self.inputs = built[4] if len(built) > 4 and built[4] else {}
-            self.h = Harness(dut, methods, extra)
+            self.h = Harness(dut, methods, extra, shadows)
             tm = TransactionManager(scheduler) if scheduler is not None else TransactionManager()
             self.top = _Top(TransactronContextElaboratable(self.h, dependency_manager=self.dm, transaction_manager=tm))
             self.sim = Simulator(self.top)
@@ -155,6 +156,9 @@ class IOSim:
             sigs = []
             for p in ports.values():
                 sigs += [p.trans.run, p.trans.runnable, p.dout.as_value()]
+            shadow = self.h.shadow
+            for p in shadow.values():
+                sigs += [p.trans.run, p.dout.as_value()]
             sigs += pub_sigs
             i = 0
             prev = None
@@ -181,6 +185,9 @@ class IOSim:
                         raw = encode(p.method.layout_in, expand(p.method.layout_in, a))
                     ctx.set(p.din.as_value(), raw)
                     args[name] = a
+                    if name in shadow:
+                        ctx.set(shadow[name].en, 1 if (req and name in step.get("_shadow", ())) else 0)
+                        ctx.set(shadow[name].din.as_value(), raw)
                 inp = {k: v for k, v in step.get("_in", {}).items() if k != "none"}
                 for sname, v in inp.items():
                     s = inputs[sname]
@@ -202,7 +209,18 @@ class IOSim:
                         "done": int(run),
                         "arg": args[name],
                         "out": simplify(p.method.layout_out, decode(p.method.layout_out, int(dout))),
+                        "both": 0,
                     }
+                for name, p in shadow.items():
+                    srun, sdout = int(vals[k]), vals[k + 1]
+                    k += 2
+                    if srun:
+                        line[name]["both"] = line[name]["done"]
+                        if not line[name]["done"]:
+                            line[name]["done"] = 1
+                            line[name]["out"] = simplify(p.method.layout_out, decode(p.method.layout_out, int(sdout)))
+                    if name in step and name in step.get("_shadow", ()):
+                        line[name]["sh"] = 1
                 pub = {}
                 for n, cnt in pub_layout:
                     if cnt is None:
@@ -237,8 +255,9 @@ def _warm():
     from . import drive  # noqa: F401
 
 
-def make_sim(comp: IOComponent, cfg):
-    return IOSim(comp.build, cfg, scheduler=comp.scheduler, dm_setup=comp.dm_setup)
+def make_sim(comp: IOComponent, cfg, shadows=False):
+    return IOSim(comp.build, cfg, scheduler=comp.scheduler, dm_setup=comp.dm_setup,
+                 shadows=list(comp.shadow(cfg)) if (shadows and comp.shadow) else ())
 
 
 def run_schedule(comp: IOComponent, cfg, sim: IOSim, schedule):
@@ -490,7 +509,8 @@ def replay_edges(comp: IOComponent, edges, inits, rep: Report, procs=NPROCS, max
 # ---------------------------------------------------------------------------------------
 # 3. code -> spec: record + validate traces
 
-def random_schedule(comp: IOComponent, cfg, rng: random.Random, cycles: int):
+def random_schedule(comp: IOComponent, cfg, rng: random.Random, cycles: int, shadows=()):
+    srng = random.Random(rng.random()) if shadows else None
     methods = comp.methods(cfg)
     tracker = comp.tracker(cfg) if comp.tracker else None
     state = {"phase_end": 0, "p": {}, "inph": None}
@@ -520,6 +540,8 @@ def random_schedule(comp: IOComponent, cfg, rng: random.Random, cycles: int):
         step["_in"] = comp.gen_in(cfg, rng, tracker, state["inph"])
         if tracker is not None and hasattr(tracker, "fix"):
             step = tracker.fix(step, rng)
+        if shadows:
+            step["_shadow"] = [m for m in shadows if m in step and srng.random() < 0.4]
         return step
 
     return sched
@@ -532,10 +554,18 @@ def _record_task(args):
     out = []
     try:
         sim = make_sim(comp, cfg)
-        for job in jobs:
+        # every second random history runs on a second elaboration that has shadow callers (a second harness
+        # transaction per exclusive method): ExclusiveOnce
+        shadows = list(comp.shadow(cfg)) if comp.shadow else []
+        ssim = None
+        for ji, job in enumerate(jobs):
             if job["kind"] == "random":
                 rng = random.Random(job["seed"])
-                lines = run_schedule(comp, cfg, sim, random_schedule(comp, cfg, rng, job["cycles"]))
+                if shadows and job["seed"] % 2 == 1:
+                    ssim = ssim or make_sim(comp, cfg, shadows=True)
+                    lines = run_schedule(comp, cfg, ssim, random_schedule(comp, cfg, rng, job["cycles"], shadows))
+                else:
+                    lines = run_schedule(comp, cfg, sim, random_schedule(comp, cfg, rng, job["cycles"]))
                 out.append({"cfg": cfg, "seed": job["seed"], "cycles": lines})
             else:
                 lines = run_schedule(comp, cfg, sim, job["schedule"])
@@ -646,6 +676,9 @@ def sched_of(line):
         else:
             args[m] = v["arg"]
     step["_args"] = args
+    sh = [m for m, v in line.items() if isinstance(v, dict) and v.get("sh")]
+    if sh:
+        step["_shadow"] = sh
     if line.get("in") and line["in"] != {"none": 0}:
         step["_in"] = line["in"]
     return step
